@@ -419,24 +419,26 @@ def isEmptyDict : Val → Bool
 /-- token list of `delete` (after the repair: the same normalisation as lookup) -/
 def deleteTokens (xp : Str) : List Str := tokenize xp
 
+/-- the `for i, last_xpath_index in enumerate(range(len(xpath_list), 0, -1))` loop of `delete`:
+`k` is the length of the prefix looked up next -/
+def deleteLoop (fuel : Nat) (toks : List Str) (recursively : Bool) : Val → Nat → Bool → Val × PyM Unit
+  | root, 0, _ => (root, .ok ())
+  | root, k + 1, first =>
+    match findD fuel root [] false true (toks.take (k + 1)) (.at []) true slash with
+    | .error e => (root, .error e)
+    | .ok (root, r) =>
+      if first || (recursively && isEmptyDict r.value) then
+        match delThrough root r.parent r.nameIdx with
+        | .error e => (root, .error e)
+        | .ok root => deleteLoop fuel toks recursively root k false
+      else deleteLoop fuel toks recursively root k false
+
 /-- `n0dict__.delete(xpath, recursively)`: the tree after the call and whether it raised -/
 def delete (fuel : Nat) (root : Val) (xp : Str) (recursively : Bool) : Val × PyM Unit :=
   match root with
   | .dict .. =>
     let toks := deleteTokens xp
-    let rec loop (root : Val) (k : Nat) (first : Bool) : Nat → Val × PyM Unit
-      | 0 => (root, .ok ())
-      | n + 1 =>
-        if k = 0 then (root, .ok ()) else
-        match findD fuel root [] false true (toks.take k) (.at []) true slash with
-        | .error e => (root, .error e)
-        | .ok (root, r) =>
-          if first || (recursively && isEmptyDict r.value) then
-            match delThrough root r.parent r.nameIdx with
-            | .error e => (root, .error e)
-            | .ok root => loop root (k - 1) false n
-          else loop root (k - 1) false n
-    loop root toks.length true toks.length
+    deleteLoop fuel toks recursively root toks.length true
   | _ => (root, .error .Unsupported)
 
 /-- `n0dict__.pop(xpath, if_not_found, recursively)`: value and new tree -/
